@@ -12,6 +12,7 @@ type Analysis struct {
 }
 
 func Analyze(g *Grammar) *Analysis {
+	g = g.Effective()
 	a := &Analysis{Nullable: map[string]bool{}, First: map[string]map[string]bool{}, LeftRec: map[string]bool{}}
 	for changed := true; changed; {
 		changed = false
@@ -113,6 +114,7 @@ func (a *Analysis) HasCycle() bool { return len(a.LeftRec) > 0 }
 // actions, recovery expressions) stay false, and a sequence there is taken to
 // begin only with its first item. Everything else is the exact analysis.
 func AnalyzeChoiceBlind(g *Grammar) *Analysis {
+	g = g.Effective()
 	exact := Analyze(g)
 	visited := map[*Expr]bool{}
 	var visit func(e *Expr)
@@ -200,6 +202,7 @@ func AnalyzeChoiceBlind(g *Grammar) *Analysis {
 // lists l, so the first-call set of the throw contains theirs. Used to
 // recognise finding D26 (left recursion through a handler of another rule).
 func AnalyzeThrowAware(g *Grammar) *Analysis {
+	g = g.Effective()
 	exact := Analyze(g)
 	handlers := map[string][]*Expr{}
 	for _, r := range g.Rules {
@@ -272,6 +275,7 @@ func AnalyzeThrowAware(g *Grammar) *Analysis {
 // rule it self has no references", applied until nothing changes): the least set of defined
 // rules all of whose references lead to rules of the set. Rules on a cycle are never in it.
 func InlinableRules(g *Grammar) map[string]bool {
+	g = g.Effective()
 	inl := map[string]bool{}
 	for changed := true; changed; {
 		changed = false
